@@ -168,6 +168,9 @@ func (c *Conn) ReadFrom(r io.Reader) (n int64, err error) {
 			return n, io.ErrNoProgress
 		}
 		bufNode.malloc += m
+		// Keep the space accounting of the node in step on every way out (source error,
+		// io.ErrNoProgress, failed Flush), not only at io.EOF: Malloc relies on it.
+		c.outputBuffer.len = bufNode.Cap()
 		n += int64(m)
 		if err != nil {
 			break
